@@ -34,9 +34,12 @@ def lemmas_for(prop):
     return res
 
 
-def run(prop, work, repo=None):
+def run(prop, work, repo=None, tier='thorough'):
     repo = repo or REPO
     todo = lemmas_for(prop)
+    if tier != 'thorough':
+        # bounded stand-ins are cross-checks of assumed std contracts; the complete leaf lemmas run in both tiers
+        todo = [t for t in todo if not t[4].startswith('bounded')]
     if not todo:
         return []
     scratch = os.path.join(work, 'kani_repo')
